@@ -56,6 +56,10 @@ def _sc(draw):
     for b in range(nb):
         tail.append(['idle', b, None])
     sc['actors'].append(tail)
+    # some plain async handlers are wrapped in the library's own @retry decorator (no retries): the bus's timeout must stop the wrapped
+    # body as well
+    if draw(st.integers(0, 3)) == 0:
+        sc['handlers'] = [dict(h, kind='aretry', retry={'wait': 0.0, 'retries': 0}) if (h['kind'] == 'async' and not any(op[0] == 'raise' for op in h['prog']) and draw(st.booleans())) else h for h in sc['handlers']]
     return sc
 
 
